@@ -4,8 +4,8 @@
    the model run is a total function: "an exception escapes the iterator" is not a possible value; the statements below
    say what comes out instead. *)
 From Coq Require Import List NArith Bool.
-From Model Require Import Conn.
-From Proofs Require Import ShapeFacts RunFacts TraceFacts.
+From Model Require Import Conn Connect.
+From Proofs Require Import ShapeFacts RunFacts TraceFacts ConnectFacts.
 Import ListNotations.
 
 (* whatever fails -- connect (any class of exception), the request write, any recv (EOF, OSError, arbitrary exception),
@@ -35,3 +35,28 @@ Proof. exact finish_released. Qed.
    the model's exn and the definition of write -- see C03/C08 for what each refusal leaves unchanged *)
 Theorem C09_app_errors : forall x, is_websocket_error x = true \/ x = XTypeError \/ x = XValueError.
 Proof. destruct x; cbn; auto. Qed.
+
+(* ---------- "a refused connect on every resolved address (each address is tried before giving up)" ---------- *)
+(* _connect_sock in the model (Connect.v; compared with the real method on every outcome pattern by the check): the address
+   in use is the FIRST one whose socket can be created and connected ... *)
+Theorem C09_first_usable_address : forall addrs i, fst (connect_from i addrs) = first_usable i addrs.
+Proof. exact connect_uses_first_usable. Qed.
+Print Assumptions C09_first_usable_address.
+(* ... connect() is called on the creatable addresses in order, up to and including that one, and on all of them when
+   none connects ... *)
+Theorem C09_addresses_tried_in_order : forall addrs i, connects (snd (connect_from i addrs)) = expected_connects i addrs.
+Proof. exact connects_in_order. Qed.
+(* ... the sockets closed are exactly those whose connect() failed (so none stays open behind a failed attempt, and the
+   one in use is not closed) ... *)
+Theorem C09_failed_attempts_closed : forall addrs i,
+  closes (snd (connect_from i addrs)) =
+  match fst (connect_from i addrs) with
+  | Some k => filter (fun j => negb (Nat.eqb j k)) (connects (snd (connect_from i addrs)))
+  | None => connects (snd (connect_from i addrs))
+  end.
+Proof. intros addrs i. apply (failed_attempts_are_closed addrs i). Qed.
+Print Assumptions C09_failed_attempts_closed.
+(* ... and the attempt fails only when no address is usable *)
+Theorem C09_gives_up_only_after_every_address : forall addrs,
+  fst (connect_sock true addrs) = None <-> Forall (fun a => usable a = false) addrs.
+Proof. exact gives_up_only_after_all. Qed.
